@@ -1,0 +1,9 @@
+//go:build !verif
+
+package verifhook
+
+// Emit records an event. It does nothing unless built with the verif tag.
+func Emit(_ string, _ ...any) {}
+
+// Gate marks a scheduling point. It does nothing unless built with the verif tag.
+func Gate(_ string, _ ...any) {}
